@@ -142,6 +142,11 @@ fn alphabet_c(full: bool) -> Vec<Op> {
 /// held across arena turn-overs, pushed late, with partial consumption in between; reads that
 /// fill the current chunk exactly (burn(70) then a 70-byte read).
 fn alphabet_e() -> Vec<Op> {
+    alphabet_e_ext().into_iter().filter(|o| !matches!(o.k, K::PushAnchored(5) | K::ExtendAnchored(_) | K::AnchorFirst(_))).collect()
+}
+
+/// Alphabet E plus the less usual ways for anchored memory to enter (short slices, extend, anchor first).
+fn alphabet_e_ext() -> Vec<Op> {
     vec![
         a(K::HoldRead(300)),
         a(K::HoldRead(70)),
@@ -149,12 +154,35 @@ fn alphabet_e() -> Vec<Op> {
         a(K::HeldDrop),
         a(K::PushAnchored(300)),
         a(K::PushAnchored(70)),
+        a(K::PushAnchored(5)),
+        a(K::ExtendAnchored(300)),
+        a(K::AnchorFirst(300)),
         a(K::PushCopy(3)),
         a(K::Push(65)),
         a(K::FlushCache),
         a(K::Burn(70)),
         a(K::Consume(1)),
         a(K::Advance(66)),
+    ]
+}
+
+/// Alphabet F (C03, C04): the end of an arena chunk.  Copies that leave 1 or 4 bytes in the current
+/// chunk, then copies and placeholders both smaller and larger than that remainder (placeholders of
+/// 70 bytes are legal: register_patch takes any pattern), rejected backfills, consumption.
+fn alphabet_f() -> Vec<Op> {
+    vec![
+        a(K::Burn(4)),
+        a(K::Burn(1)),
+        a(K::PushCopy(3)),
+        a(K::PushCopy(70)),
+        a(K::Register(1)),
+        a(K::Register(70)),
+        a(K::Backfill(0)),
+        a(K::Backfill(255)),
+        a(K::BackfillWrongSize(0)),
+        a(K::Consume(255)),
+        a(K::Advance(65535)),
+        a(K::FlushCache),
     ]
 }
 
@@ -165,6 +193,7 @@ fn alphabet_d_prefix() -> Vec<Op> {
         a(K::PushCopy(3)),
         a(K::PushCopy(70)),
         a(K::PushAnchored(300)),
+        a(K::AnchorFirst(300)),
         a(K::Register(1)),
         a(K::Backfill(0)),
         a(K::Consume(1)),
@@ -215,6 +244,28 @@ fn pending_seeds() -> Vec<(&'static str, Vec<Op>)> {
     vec![
         ("six-pending", vec![a(K::Register(1)), a(K::PushCopy(3)), a(K::Register(1)), a(K::Register(2)), a(K::PushBorrowed(3)), a(K::Register(1)), a(K::Register(1)), a(K::Register(1))]),
         ("five-pending-two-filled", vec![a(K::Register(1)), a(K::Register(1)), a(K::Register(1)), a(K::PushCopy(3)), a(K::Register(1)), a(K::Register(1)), a(K::Backfill(1)), a(K::Backfill(2))]),
+        // eight out-of-order fills after one in-order fill: thresholds of any tombstone compaction in the pending table
+        ("twelve-pending-eight-filled", {
+            let mut v: Vec<Op> = (0..12).map(|i| if i % 4 == 3 { a(K::Register(2)) } else { a(K::Register(1)) }).collect();
+            v.insert(6, a(K::PushCopy(3)));
+            v.push(a(K::Backfill(0)));
+            for _ in 0..7 {
+                v.push(a(K::Backfill(1)));
+            }
+            v
+        }),
+        // neighbours filled in swapped order (the later one first), three times, then three in a row:
+        // tombstones repeatedly leave through the front of the pending table
+        ("twelve-pending-swapped-pairs", {
+            let mut v: Vec<Op> = (0..12).map(|i| if i % 4 == 3 { a(K::Register(2)) } else { a(K::Register(1)) }).collect();
+            v.insert(5, a(K::PushCopy(3)));
+            for _ in 0..2 {
+                v.push(a(K::Backfill(1)));
+                v.push(a(K::Backfill(0)));
+            }
+            v.extend([a(K::Backfill(1)), a(K::Backfill(1)), a(K::Backfill(1))]);
+            v
+        }),
         ("seven-pending-across-slices", vec![a(K::Register(1)), a(K::Push(100)), a(K::Register(1)), a(K::Register(1)), a(K::Push(100)), a(K::Register(1)), a(K::Register(1)), a(K::Register(2)), a(K::Register(1))]),
     ]
 }
@@ -450,20 +501,26 @@ fn run(ctx: &Ctx) -> Report {
             for (name, seed) in pending_seeds() {
                 explore(ctx, &mut rep, "C03", &format!("C03 backpatch alphabet B after seed {}", name), alphabet_b(), Start::Fresh, seed, t.pick(4, 5));
             }
+            explore(ctx, &mut rep, "C03", "C03 alphabet F (chunk end)", alphabet_f(), Start::Fresh, vec![], t.pick(6, 7));
         }
         "C04" => {
-            explore(ctx, &mut rep, "C04", "C04 alphabet B", alphabet_b(), Start::Fresh, vec![], t.pick(7, 8));
+            // the 16 single-pipe ops to the full depth; with the clone-while-pending op one level shallower
+            let b_core: Vec<Op> = alphabet_b().into_iter().filter(|o| o.k != K::ClonePending).collect();
+            explore(ctx, &mut rep, "C04", "C04 alphabet B", b_core, Start::Fresh, vec![], t.pick(7, 8));
+            explore(ctx, &mut rep, "C04", "C04 alphabet B + clone while pending", alphabet_b(), Start::Fresh, vec![], t.pick(6, 7));
             for (name, seed) in seeds() {
                 explore(ctx, &mut rep, "C04", &format!("C04 alphabet B after seed {}", name), alphabet_b(), Start::Fresh, seed, t.pick(4, 6));
             }
             for (name, seed) in pending_seeds() {
                 explore(ctx, &mut rep, "C04", &format!("C04 alphabet B after seed {}", name), alphabet_b(), Start::Fresh, seed, t.pick(4, 5));
             }
+            explore(ctx, &mut rep, "C04", "C04 alphabet F (chunk end, rejected backfills)", alphabet_f(), Start::Fresh, vec![], t.pick(6, 7));
         }
         "C05" => {
             explore(ctx, &mut rep, "C05", "C05 alphabet C", alphabet_c(false), Start::Fresh, vec![], t.pick(5, 6));
             explore(ctx, &mut rep, "C05", "C05 alphabet C (full)", alphabet_c(true), Start::Fresh, vec![], t.pick(4, 5));
             explore(ctx, &mut rep, "C05", "C05 alphabet E (anchored memory)", alphabet_e(), Start::Fresh, vec![], t.pick(7, 8));
+            explore(ctx, &mut rep, "C05", "C05 alphabet E extended (short anchored slices, extend, anchor first)", alphabet_e_ext(), Start::Fresh, vec![], t.pick(5, 6));
             for (name, seed) in seeds() {
                 explore(ctx, &mut rep, "C05", &format!("C05 alphabet C after seed {}", name), alphabet_c(false), Start::Fresh, seed, t.pick(4, 5));
             }
